@@ -35,10 +35,11 @@ inductive RErr where
   | fuel                                  -- artefact of the fuelled loop (proved unreachable)
 deriving Repr, DecidableEq, Inhabited
 
-/-- lenient branches taken (places where the Go reader accepts what the RFCs tell it to reject, or
-fails without the close frame the property asks for) -/
+/-- deviating branches taken: places where the Go reader fails differently from what the property
+asks for.  After the fixes a4ffe486, 13f4dfc8, 7b24129f only one is left: a 64-bit length with the
+most significant bit set yields ErrReadLimit and no close frame (pinned by the repo's TestReadLimit). -/
 inductive Dev where
-  | rsv1Control | rsv1Continuation | close1 | len64Msb | lengthOverflow
+  | len64Msb
 deriving Repr, DecidableEq, Inhabited
 
 structure RState where
@@ -99,10 +100,12 @@ def headerErrs (cfg : Cfg) (readFinal : Bool) (h : Hdr) : List String :=
   ++ (if isControlOp h.opcode then
         (if h.len7 > 125 then ["len > 125 for control"] else [])
         ++ (if !h.fin then ["FIN not set on control"] else [])
+        ++ (if h.rsv1 && cfg.deflate then ["RSV1 set on control"] else [])
       else if isDataOp h.opcode then
         (if !readFinal then ["data before FIN"] else [])
       else if h.opcode == 0 then
         (if readFinal then ["continuation after FIN"] else [])
+        ++ (if h.rsv1 && cfg.deflate then ["RSV1 set on continuation"] else [])
       else ["bad opcode " ++ toString h.opcode])
   ++ (if h.masked != cfg.server then ["bad MASK"] else [])
 
@@ -134,7 +137,7 @@ def dataFrame (cfg : Cfg) (frameType : Nat) (st : RState) : Adv :=
   let st := { st with readLength := st.readLength + st.readRemaining }
   -- Don't allow readLength to overflow in the presence of a large readRemaining counter.
   if st.readLength ≥ two63 then
-    .err .readLimit { st with devs := st.devs ++ [Dev.lengthOverflow] }
+    .err .readLimit (writeControl st opClose (formatClose 1009 [])).1
   else if cfg.readLimit > 0 && st.readLength > cfg.readLimit then
     .err .readLimit (writeControl st opClose (formatClose 1009 [])).1
   else .ok frameType st
@@ -155,9 +158,10 @@ def processControl (frameType : Nat) (payload : Bytes) (st : RState) : Adv :=
       if !goValidCloseCode code then handleProtocolError st ("bad close code " ++ toString code)
       else if !utf8Valid text then handleProtocolError st "invalid utf8 payload in close frame"
       else .err (.close code text) (writeControl st opClose (formatClose code [])).1
-    | rest =>
-      let st := if rest.length == 1 then { st with devs := st.devs ++ [Dev.close1] } else st
-      .err (.close 1005 []) (writeControl st opClose (formatClose 1005 [])).1
+    | [_] =>
+      -- RFC 6455 5.5.1: a close body, if present, starts with a 2-byte status code.
+      handleProtocolError st "invalid close payload length"
+    | [] => .err (.close 1005 []) (writeControl st opClose (formatClose 1005 [])).1
 
 /-- steps 6 and 7: read and process a control frame payload -/
 def controlFrame (cfg : Cfg) (frameType : Nat) (st : RState) : Adv :=
@@ -205,11 +209,7 @@ def advanceFrame (cfg : Cfg) (st0 : RState) : Adv :=
     let st := { st with
       readRemaining := h.len7,
       readDecompress := h.rsv1 && cfg.deflate,
-      readFinal := if isDataOp h.opcode || h.opcode == 0 then h.fin else st.readFinal,
-      devs := if h.rsv1 && cfg.deflate then
-                (if isControlOp h.opcode then st.devs ++ [Dev.rsv1Control]
-                 else if h.opcode == 0 then st.devs ++ [Dev.rsv1Continuation] else st.devs)
-              else st.devs }
+      readFinal := if isDataOp h.opcode || h.opcode == 0 then h.fin else st.readFinal }
     if !errs.isEmpty then handleProtocolError st (", ".intercalate errs)
     else frameBody cfg h st
   | _ => .err (.panic "header index") st
